@@ -47,6 +47,7 @@ func runC19(c *core.Ctx) {
 	c19R5(c)
 	uniqueRule(c, "C19.R6")
 	poolRule(c, "C19.R7", "message")
+	c19R8(c, "C19.R8")
 }
 
 func c19R1(c *core.Ctx) {
@@ -558,5 +559,45 @@ func uniqueRule(c *core.Ctx, rule string) {
 	}
 	if n == 0 {
 		c.Undecided(rule, "message.unique:initialised", token.NoPos, "no assignment of message.unique found")
+	}
+}
+
+// c19R8: one serial flusher per peer. processSendQueue swaps the frame out and unicasts its
+// chunks in order; it is started only by the async.Repeat ticker created in newPeer (one
+// goroutine, runs never overlap). A second caller — a direct call or a `go` from Send when
+// the frame is full — lets two flushes interleave their GossipUnicast calls, so later
+// messages overtake earlier ones.
+func c19R8(c *core.Ctx, rule string) {
+	c.Rule(rule, "who-may-call: Peer.processSendQueue is referenced only as the action of the async.Repeat started in newPeer (no direct call, no go statement, no other function value)", 1)
+	f := fn(c, rule, "internal/service/cluster", "Peer", "processSendQueue")
+	if f == nil {
+		return
+	}
+	cg := c.P.CG()
+	nOK := 0
+	for _, e := range cg.In[f] {
+		if e.Kind == "static" {
+			c.Fail(rule, fnName(e.Caller)+":calls processSendQueue", e.Site.Pos(), "the send queue of a peer is also flushed from "+fnName(e.Caller)+" ("+fmt.Sprintf("%T", e.Site)+"): two flushes can run at once and interleave their unicasts, later messages overtake earlier ones")
+		}
+	}
+	for _, site := range cg.AddrTaken[f] {
+		okSite := false
+		if ci, ok := site.(ssa.CallInstruction); ok && eng.IsCallTo(site, M+"async.Repeat") {
+			_ = ci
+			okSite = true
+		}
+		if _, isMC := site.(*ssa.MakeClosure); isMC {
+			// the bound-method value itself; its use is judged at the call that receives it
+			continue
+		}
+		if okSite {
+			nOK++
+			c.OK(rule, fnName(site.Parent())+":ticker action", site.Pos(), "processSendQueue is the action of the peer's async.Repeat ticker")
+		} else {
+			c.Fail(rule, fnName(site.Parent())+":uses processSendQueue as a value", site.Pos(), "processSendQueue escapes as a function value outside the async.Repeat ticker of newPeer: a second flusher can run concurrently")
+		}
+	}
+	if nOK == 0 {
+		c.Fail(rule, "ticker", f.Pos(), "processSendQueue is no longer scheduled by async.Repeat")
 	}
 }
